@@ -34,7 +34,10 @@ func init() {
 			"and the cancel function blocks only when options.waitOnCancel (off by default) is set; (Y6) the fallback classifiers test error classes on the whole error tree; " +
 			"(Y7) context lineage: at every hand-over of a context towards a node request (multi method -> provide/submit and in-package helpers on the way -> forkjoin.New -> forkjoin worker's call of the work function -> " +
 			"submit's adapter -> args.client.<Method>) no value the context argument may hold is a detached context (context.Background / TODO / WithoutCancel or derived from one), followed field-sensitively through " +
-			"parameter objects, captured variables, literals invoked directly and context-returning helpers of the module.",
+			"parameter objects, captured variables, literals invoked directly and context-returning helpers of the module; " +
+			"(Y8) no string test of the three fallback classifiers (or of an in-package function / literal they call) contradicts the normalisation of its subject: a strings/bytes Contains / HasPrefix / HasSuffix / Index / LastIndex / Count / Cut* test or a string ==, != whose subject " +
+			"is lower-cased (upper-cased) by strings.ToLower (ToUpper) on every path -- followed through variables, captures, concatenation, slicing, trimming, in-package helpers and parameters of non-escaping helpers -- is never compared with a constant " +
+			"(literal, literal table, package-level table, argument of a helper) containing ASCII upper-case (lower-case) letters, which could never match and would make that error class dead.",
 		NotDecided: "latency and completion orders at run time, scheduling inside forkjoin (goroutines, channel closing), the error-class string/errno tables of the three classifiers, " +
 			"behaviour of the individual node clients (lazy, httpAdapter), which of several successful answers wins.",
 		Run: c19,
@@ -152,6 +155,18 @@ func init() {
 			{ID: "C19-Y7-submit-timeout-on-background", File: fg, Expect: "Y7|SubmitAttestations",
 				Old: "\t\t\treturn args.client.SubmitAttestations(ctx, opts)\n",
 				New: "\t\t\tsctx, cancel := context.WithTimeout(context.Background(), time.Minute)\n\t\t\tdefer cancel()\n\n\t\t\treturn args.client.SubmitAttestations(sctx, opts)\n"},
+			// Y8
+			{ID: "C19-Y8-syncing-lowered-subject-mixed-needle", File: fw, Expect: "Y8|isSyncingError",
+				Old: "\tmsg := err.Error()\n\treturn strings.Contains(msg, \"syncing\")", New: "\tmsg := strings.ToLower(err.Error())\n\treturn strings.Contains(msg, \"syncing\")"},
+			{ID: "C19-Y8-timeout-upper-subject", File: fw, Expect: "Y8|isTimeoutError",
+				Old: "\tmsg := err.Error()\n\treturn strings.Contains(msg, \"http request timeout\")", New: "\tmsg := strings.ToUpper(err.Error())\n\treturn strings.Contains(msg, \"http request timeout\")"},
+			{ID: "C19-Y8-inline-lowered-argument", File: fw, Expect: "Y8|isSyncingError",
+				Old: "strings.Contains(msg, \"HeadBlockNotFullyVerified\")", New: "strings.HasPrefix(strings.TrimSpace(strings.ToLower(msg)), \"HeadBlockNotFullyVerified\")"},
+			{ID: "C19-Y8-closure-needle-parameter", File: fw, Expect: "Y8|isTimeoutError",
+				Old: "\treturn strings.Contains(msg, \"http request timeout\") || strings.Contains(msg, \"client is not active\") || strings.Contains(msg, \"context deadline exceeded\")\n",
+				New: "\tlow := strings.ToLower(msg)\n\thas := func(s string) bool { return strings.Contains(low, s) }\n\n\treturn has(\"http request timeout\") || has(\"client is not active\") || has(\"Context deadline exceeded\")\n"},
+			{ID: "C19-Y8-equality-on-lowered", File: fw, Expect: "Y8|isSyncingError",
+				Old: "strings.Contains(msg, \"syncing\") ||", New: "strings.ToLower(msg) == \"Syncing\" ||"},
 			// Y4
 			{ID: "C19-Y4-first-client-directly", File: fg, Expect: "Y4|AttestationData",
 				Old: "return args.client.AttestationData(ctx, opts)", New: "return m.clients[0].AttestationData(ctx, opts)"},
@@ -1001,6 +1016,7 @@ func c19(c *rt.Ctx) {
 	c.Rule("Y5", 5, func() { c19Y5(c) })
 	c.Rule("Y6", 3, func() { c19Y6(c) })
 	c.Rule("Y7", 46, func() { c19Y7(c) })
+	c.Rule("Y8", 3, func() { c19Y8(c) })
 }
 
 func c19Y1(c *rt.Ctx) {
